@@ -71,6 +71,21 @@ pub fn check_kind(t: &Trace<'_>, m: &Model, out: &mut CaseOut, prop: &'static st
             out.violations.push(viol(prop, format!("{}/transmit-after-ack/{}", prop, kind), format!("op#{} id {} transmitted again on conn {} after its acknowledgement (code {:#x}) had been consumed", x.op, x.pid, o.tx.conn, a.code)));
         }
     }
+    // (c0) a replay is only ever refused as too large under a Maximum Packet Size announced by
+    // the *current* CONNACK that the packet really exceeds
+    for (i, op) in t.log.ops.iter().enumerate() {
+        if !matches!(op.kind, "poll" | "recv" | "drive") || op.outcome != crate::exec::Outcome::Err(crate::exec::ErrRepr::PacketTooLarge) {
+            continue;
+        }
+        let Some(ci) = op.conn.map(|c| &t.conns[c]) else { continue };
+        let Some(b) = &op.snap_before else { continue };
+        let limit = ci.mps.map(|m| m as usize).unwrap_or(usize::MAX);
+        // acknowledgements and PUBRELs are at most 5 bytes long
+        if limit >= 5 && b.tx.retained.iter().all(|e| e.len <= limit) {
+            out.violations.push(viol(prop, format!("{}/replay-refused-without-cause", prop), format!("op#{} {} on conn {} returned PacketTooLarge; the CONNACK of that connection announced {:?} and the retained packets are {:?} bytes long", i, op.kind, ci.idx, ci.mps, b.tx.retained.iter().map(|e| e.len).collect::<Vec<_>>())));
+            break;
+        }
+    }
     // (c) every resumed, drained connection carries each outstanding message exactly once
     for ci in t.conns.iter().filter(|c| c.established && c.connack.as_ref().is_some_and(|k| k.0)) {
         let Some(e_d) = drained_at(t, ci.idx) else { continue };
@@ -79,6 +94,13 @@ pub fn check_kind(t: &Trace<'_>, m: &Model, out: &mut CaseOut, prop: &'static st
         for msg in m.msgs.iter().filter(|x| x.kind == kind && x.ev_accept < ci.ev_begin) {
             if !msg.outstanding_at(t0) {
                 continue;
+            }
+            // (a packet above this connection's Maximum Packet Size is legitimately not replayed here)
+            if let (Some(m), Some(first)) = (ci.mps, msg.txs.first()) {
+                if raw(w, first).len() > m as usize {
+                    out.count("replays_withheld_under_a_smaller_limit", 1);
+                    continue;
+                }
             }
             // QoS 2 in the release phase is judged by the PUBREL rules instead
             if msg.releasing_at(t0) {
